@@ -353,17 +353,21 @@ def chordSymbolBass (s : Symbol) : Except Err Nat := do
   let _ ← splitMods s
   pitchClassToMidi (s.bass.getD (s.rootStep, s.rootAlter))
 
+/-- the triad test of `chord_symbol_quality` on the parsed degrees -/
+def qualityOfDegrees (degrees : Dict) : Int :=
+  match dget degrees 1, dget degrees 3, dget degrees 5 with
+  | some a, some b, some c =>
+      if (a, b, c) = (0, 0, 0) then QUALITY_MAJOR
+      else if (a, b, c) = (0, -1, 0) then QUALITY_MINOR
+      else if (a, b, c) = (0, 0, 1) then QUALITY_AUGMENTED
+      else if (a, b, c) = (0, -1, -1) then QUALITY_DIMINISHED
+      else QUALITY_OTHER
+  | _, _, _ => QUALITY_OTHER
+
 /-- `chord_symbol_quality` -/
 def chordSymbolQuality (s : Symbol) : Except Err Int := do
   let (_, degrees, _) ← parseChordSymbol s
-  match dget degrees 1, dget degrees 3, dget degrees 5 with
-  | some a, some b, some c =>
-      if (a, b, c) = (0, 0, 0) then .ok QUALITY_MAJOR
-      else if (a, b, c) = (0, -1, 0) then .ok QUALITY_MINOR
-      else if (a, b, c) = (0, 0, 1) then .ok QUALITY_AUGMENTED
-      else if (a, b, c) = (0, -1, -1) then .ok QUALITY_DIMINISHED
-      else .ok QUALITY_OTHER
-  | _, _, _ => .ok QUALITY_OTHER
+  .ok (qualityOfDegrees degrees)
 
 /-! ### printing (string layer; used by the driver only, no theorem mentions it) -/
 
